@@ -25,6 +25,7 @@ from liquid2.builtin import StringLiteral
 from liquid2.builtin import parse_keyword_arguments
 from liquid2.builtin.content import ContentNode
 from liquid2.builtin.output import OutputNode
+from liquid2.exceptions import LiquidTypeError
 from liquid2.exceptions import TranslationSyntaxError
 from liquid2.limits import to_int
 from liquid2.messages import MESSAGES
@@ -267,7 +268,13 @@ class TranslateNode(Node, TranslatableTag):
             for k in self.re_vars.findall(message_text)
         }
 
-        return message_text % _vars
+        try:
+            return message_text % _vars
+        except (KeyError, ValueError, TypeError) as err:
+            raise LiquidTypeError(
+                f"invalid message format string {str(message_text)!r}",
+                token=self.token,
+            ) from err
 
 
 class TranslateTag(Tag):
